@@ -19,6 +19,7 @@ type c10Case struct {
 	Waiters  int      `json:"waiters"`
 	Order    []int    `json:"order"`            // spawn order: actor ids 0..H-1 = holders, H..H+W-1 = waiters
 	Yields   []uint8  `json:"yields"`           // yield counts at successive schedule points
+	Cancels  []int    `json:"cancels,omitempty"` // waiters (by index) whose context is cancelled at the scenario instant (actor ids H+W, H+W+1, ...)
 	Par      bool     `json:"par,omitempty"`    // real-parallel mode: spin at the schedule points instead of yielding
 	Ghosts   int      `json:"ghosts,omitempty"` // blocking/deadline kinds: earlier callers that blocked and gave up (cancelled) before the scenario
 }
@@ -41,7 +42,10 @@ func genC10(t *rapid.T) c10Case {
 	h := rapid.IntRange(1, c.Stack.Limit).Draw(t, "holders")
 	c.Outcomes = rapid.SliceOfN(rapid.IntRange(0, 2), h, h).Draw(t, "outcomes")
 	c.Waiters = rapid.IntRange(1, 3).Draw(t, "waiters")
-	c.Order = rapid.Permutation(seq(h+c.Waiters)).Draw(t, "order")
+	if rapid.IntRange(0, 2).Draw(t, "withCancel") == 0 {
+		c.Cancels = rapid.SliceOfNDistinct(rapid.IntRange(0, c.Waiters-1), 1, c.Waiters, func(i int) int { return i }).Draw(t, "cancels")
+	}
+	c.Order = rapid.Permutation(seq(h+c.Waiters+len(c.Cancels))).Draw(t, "order")
 	c.Yields = rapid.SliceOfN(rapid.SampledFrom([]uint8{0, 0, 1, 1, 2, 3, 5}), 0, 24).Draw(t, "yields")
 	if c.Stack.Kind != "queue" {
 		c.Ghosts = rapid.SampledFrom([]int{0, 0, 1, 2, 3}).Draw(t, "ghosts")
@@ -105,9 +109,10 @@ func runC10InBubble(c c10Case) (out kit.Outcome) {
 		waiters = append(waiters, w.newCaller("a", 0, 0))
 	}
 	order := c.Order
-	if len(order) != h+c.Waiters {
-		order = seq(h + c.Waiters)
+	if len(order) != h+c.Waiters+len(c.Cancels) {
+		order = seq(h + c.Waiters + len(c.Cancels))
 	}
+	cancelled := map[int]bool{}
 	sc.arm(true)
 	for _, a := range order {
 		if a < h {
@@ -119,18 +124,28 @@ func runC10InBubble(c c10Case) (out kit.Outcome) {
 			go func() { defer w.wg.Done(); complete(cl.L, oc) }()
 		} else if a-h < len(waiters) {
 			w.start(waiters[a-h])
+		} else if k := a - h - len(waiters); k < len(c.Cancels) && c.Cancels[k] < len(waiters) {
+			wt := waiters[c.Cancels[k]]
+			cancelled[wt.ID] = true
+			w.wg.Add(1)
+			go func() { defer w.wg.Done(); wt.cancel() }()
 		}
 	}
 	synctest.Wait()
 	sc.arm(false)
 	elapsed := w.now()
 	busy := st.busy()
-	blocked := len(w.blocked())
+	blocked := 0 // waiters still blocked whose context was not cancelled
+	for _, b := range w.blocked() {
+		if !cancelled[b.ID] {
+			blocked++
+		}
+	}
 	granted, refused := 0, 0
 	for _, wt := range waiters {
 		if wt.Done && wt.OK {
 			granted++
-		} else if wt.Done {
+		} else if wt.Done && !cancelled[wt.ID] {
 			refused++
 		}
 	}
